@@ -85,6 +85,15 @@ func (r *Run) Trace() []string {
 	return r.trace
 }
 
+// FailUnhashed records a violation without feeding the event hash: for monitors whose reports
+// depend on the history of the process rather than on the run alone (the race detector reports
+// a given pair of stacks once per process).
+func (r *Run) FailUnhashed(sig string, format string, args ...interface{}) {
+	h := r.h
+	r.Fail(sig, format, args...)
+	r.h = h
+}
+
 // Fail records a violation (the run continues unless the caller stops it).
 func (r *Run) Fail(sig string, format string, args ...interface{}) {
 	d := fmt.Sprintf(format, args...)
